@@ -17,6 +17,7 @@ let views_case (c : case) (out : out_channel) =
         | ["intostream"] -> OIntoStream
         | ["get"; o; n] -> OGetSlice (nat_of_int (int_of_string o), nat_of_int (int_of_string n))
         | ["read"; k] -> ORead (nat_of_int (int_of_string k))
+        | ["readall"] -> OReadAll
         | ["sizes"] -> OSizes
         | _ -> failwith ("bad op " ^ t)) toks
     | _ -> failwith "bad line") c.lines in
@@ -73,6 +74,63 @@ let manifest_case (c : case) (out : out_channel) =
       incr step
     | _ -> failwith "bad manifest line") c.lines
 
+let content_case (c : case) (out : out_channel) =
+  let file = ref [] and pc = ref false and dedup = ref false and ops = ref [] in
+  let evs = ref [] and expected = ref [] and sample = ref None in
+  List.iter (fun l ->
+    match l with
+    | ["file"; path] -> file := nbytes (read_file path)
+    | ["cfg"; a; b] -> pc := (a = "pc=1"); dedup := (b = "dedup=1")
+    | ["add"; h; len; det; key] ->
+      let hint = (match h with "y" -> HYes | "n" -> HNo | _ -> HDetect) in
+      ops := { co_len = n_of_string len; co_hint = hint; co_detect = (det = "1"); co_key = n_of_string key } :: !ops
+    | ["sample"; ids] -> sample := Some (List.map int_of_string (String.split_on_char ',' ids))
+    | "events" :: toks ->
+      evs := List.map (fun t -> match String.split_on_char ':' t with
+        | ["new"; id; cp] -> ENew (nat_of_int (int_of_string id), cp = "1")
+        | ["handle"; id; cp] -> EHandle (nat_of_int (int_of_string id), cp = "1")
+        | ["written"; id] -> EWritten (nat_of_int (int_of_string id))
+        | _ -> failwith ("bad event " ^ t)) toks
+    | ["expected"; ids] ->
+      expected := if ids = "-" then [] else List.map (fun s -> nat_of_int (int_of_string s)) (String.split_on_char ',' ids)
+    | _ -> failwith "bad content line") c.lines;
+  let ops = List.rev !ops in
+  let (plan, clusters) = if !dedup then plan_dedup !pc ops else plan_plain !pc ops in
+  List.iteri (fun i ((ci, cl), bl) ->
+    Printf.fprintf out "%s plan %d %d %d %d\n" c.id i (int_of_nat ci) (int_of_nat cl) (int_of_nat bl)) plan;
+  List.iteri (fun k (comp, lens) ->
+    Printf.fprintf out "%s cluster %d %d %d %s\n" c.id k (if comp then 1 else 0) (List.length lens)
+      (string_of_n (List.fold_left N.add N0 lens))) clusters;
+  let planl = List.mapi (fun i x -> (i, x)) plan in
+  let planl = (match !sample with None -> planl | Some ids -> List.filter (fun (i, _) -> List.mem i ids) planl) in
+  (match !sample with Some _ -> Printf.fprintf out "%s sampled 1\n" c.id | None -> ());
+  let idxs = List.map (fun (_, ((ci, _), _)) -> n_of_int (int_of_nat ci)) planl in
+  (match cp_read_many !file (idxs @ [n_of_int 1000000000]) with
+   | Err e -> Printf.fprintf out "%s count %s\n" c.id (show_res_err e)
+   | Ok (n, rs) ->
+     Printf.fprintf out "%s count %s\n" c.id (string_of_n n);
+     List.iteri (fun k r ->
+       if k < List.length planl then
+       let i = fst (List.nth planl k) in
+       match r with
+       | None -> Printf.fprintf out "%s loc %d NONE\n" c.id i
+       | Some (((cl, bl), loc), data) ->
+         (match loc with
+          | CRaw (_, len) -> Printf.fprintf out "%s loc %d %s %s raw %s\n" c.id i (string_of_n cl) (string_of_n bl) (string_of_n len)
+          | CComp (algo, _, _, _, _, len) ->
+            Printf.fprintf out "%s loc %d %s %s comp:%s %s\n" c.id i (string_of_n cl) (string_of_n bl) (string_of_n algo) (string_of_n len));
+         (match data with
+          | Some d -> Printf.fprintf out "%s content %d %s\n" c.id i (show (ibytes d))
+          | None -> ())
+       else Printf.fprintf out "%s past far %s\n" c.id (match r with None -> "NONE" | Some _ -> "SOME")) rs;
+     (match cp_read_many !file [n; N.add n (n_of_int 1); N.add n (n_of_int 4096)] with
+      | Ok (_, [a; b; c3]) ->
+        List.iter2 (fun k r -> Printf.fprintf out "%s past %d %s\n" c.id k (match r with None -> "NONE" | Some _ -> "SOME")) [0; 1; 4096] [a; b; c3]
+      | Ok _ -> ()
+      | Err e -> Printf.fprintf out "%s past 0 %s\n" c.id (show_res_err e)));
+  let exp = if !expected = [] then List.init (List.length clusters) nat_of_int else !expected in
+  Printf.fprintf out "%s accepts %b\n" c.id (accepts !evs exp)
+
 let () =
   let cases = parse_cases Sys.argv.(1) in
   let out = open_out Sys.argv.(2) in
@@ -81,6 +139,7 @@ let () =
       match c.family with
       | "views" -> views_case c out
       | "manifest" -> manifest_case c out
+      | "content" -> content_case c out
       | f -> failwith ("unknown family " ^ f)
     with e -> Printf.fprintf out "%s MODEL_EXN %s\n" c.id (Printexc.to_string e)) cases;
   close_out out
